@@ -99,6 +99,31 @@ def queries(rng, doc: Node, reg: Registry, docs):
         reg.see(doc.replace(a, c, other.slice(0, min(2, other.content.size))))
     except ValueError:
         pass
+    # more read-only queries and value constructors over live objects
+    rc = doc.resolve(c)
+    reg.see(r.marks_across(rc))
+    reg.see(rc.marks_across(rc))
+    r.block_range(rc)
+    doc.range_has_mark(a, c, S.rand_mark(rng, doc.type.schema))
+    blocks = []
+    doc.descendants(lambda n, *_: blocks.append(n) if n.inline_content and n.child_count >= 2 else None)
+    for blk in blocks[:3]:
+        kids = list(blk.content.content)
+        reg.see(Fragment.from_(kids))
+        # the same texts with their marks stripped: adjacent nodes now join (twice or more in one call)
+        plain = [k.mark([]) if k.is_text else k for k in kids]
+        reg.see(Fragment.from_(plain + plain))
+        reg.see(Fragment.from_array(kids[::-1] + kids))
+    # primitive mark steps built directly (not planned by Transform.add_mark), wide ranges
+    from prosemirror.transform import AddMarkStep, RemoveMarkStep
+    m = S.rand_mark(rng, doc.type.schema)
+    for st in (AddMarkStep(a, c, m), RemoveMarkStep(a, c, m), AddMarkStep(0, n, m), RemoveMarkStep(0, n, m)):
+        try:
+            res = st.apply(doc)
+            if res.doc is not None:
+                reg.see(res.doc)
+        except ValueError:
+            pass
     doc.content.find_diff_start(other.content)
     doc.content.find_diff_end(other.content)
     j = doc.to_json()
@@ -128,7 +153,7 @@ def frame_case(rng, fam, g, doc, docs, nops):
         before_docs = list(tr.docs)
         before_maps = list(tr.mapping.maps)
         try:
-            if rng.random() < 0.3:
+            if rng.random() < 0.4:
                 queries(rng, tr.doc, reg, docs)
                 ops.append(["queries"])
             else:
